@@ -178,6 +178,25 @@ class RuntimeAssertionFeedback(AssertionFeedback):
             if self.report[TOOL_NAME]['exceptions']:
                 raise AssertionBreak(self)
 
+    def _handle_condition(self):
+        """ An assertion whose operands are errors, or whose relation cannot
+        even be evaluated for its operands, has not been satisfied: it fails
+        instead of being recorded as an (untriggered) error. """
+        condition = self.condition
+
+        def condition_failing_on_error(*args, **kwargs):
+            if any(isinstance(arg, InterpolatedValue) and arg.is_error for arg in args):
+                return True
+            try:
+                return condition(*args, **kwargs)
+            except Exception:
+                return True
+        self.condition = condition_failing_on_error
+        try:
+            super()._handle_condition()
+        finally:
+            del self.condition
+
     def get_sandbox_contexts(self, wrapped_values):
         """ Retrieve any sandbox contexts associated with these values. """
         contexts = []
